@@ -33,18 +33,8 @@ func NewLayout(m Mode) *Layout {
 }
 
 func isOpaque(t types.Type) bool {
-	if n, ok := t.(*types.Named); ok {
-		if opaqueNames[n.Obj().Name()] {
-			return true
-		}
-		// cgo aliases: type _Ctype_Fr = _Ctype_struct___N
-		return false
-	}
-	if a, ok := t.(*types.Alias); ok {
-		if opaqueNames[a.Obj().Name()] {
-			return true
-		}
-		return isOpaque(types.Unalias(t))
+	if st, ok := t.Underlying().(*types.Struct); ok && OpaqueStructs[st] {
+		return true
 	}
 	return false
 }
